@@ -123,10 +123,12 @@ def fix_atomic_specifiers(
     """
     # There can be multiple levels of _Atomic in a decl; fix them until a
     # fixed point is reached.
+    fixed = False
     while True:
         decl, found = _fix_atomic_specifiers_once(decl)
         if not found:
             break
+        fixed = True
 
     # Make sure to add an _Atomic qual on the topmost decl if needed. Also
     # restore the declname on the innermost TypeDecl (it gets placed in the
@@ -137,7 +139,12 @@ def fix_atomic_specifiers(
             typ = typ.type
         except AttributeError:
             return decl
-    if "_Atomic" in typ.quals and "_Atomic" not in decl.quals:
+    if fixed:
+        # The qualifiers of the declaration are those of its base type, as in
+        # "const int *p": a qualifier that went to a pointer level above
+        # ("const _Atomic(int *) p" is "int * const _Atomic p") is not one.
+        decl.quals = list(typ.quals or [])
+    elif "_Atomic" in typ.quals and "_Atomic" not in decl.quals:
         decl.quals.append("_Atomic")
     if typ.declname is None:
         typ.declname = decl.name
